@@ -302,6 +302,11 @@ def check(repo):
     cs = unparse(cli.methods["__init__"].node)
     r4.require("self.config = FileManager.read_service_config(sid)" in cs, cli.methods["__init__"], "client constructor reloads config", "client Service.__init__ no longer reloads the stored configuration")
 
+    r7 = Rule("R9.7", "a step's accepted state survives the close of its connection (no stale write-back over a later connection)")
+    rules.append(r7)
+    from .c12 import check_writeback_freshness
+    check_writeback_freshness(repo, r7)
+
     # ---------------------------------------------------------------- R9.6
     se = repo.func(F.CLI_CMD, "search")
     s_ = unparse(se.node)
@@ -310,6 +315,12 @@ def check(repo):
     cd = repo.func("toolkit/database_utils.py", "convert_database_keyword_to_bytes")
     dflt = cd.node.args.defaults
     r6.require(bool(dflt) and isinstance(dflt[0], ast.Constant) and dflt[0].value == "utf-8", cd, "converter default utf-8", "convert_database_keyword_to_bytes no longer defaults to utf-8")
+    cds = unparse(cd.node)
+    kw_exprs = [unparse(st.value) for st in ast.walk(cd.node) if isinstance(st, ast.Assign) and unparse(st.targets[0]) == "keyword_bytes"]
+    r6.require(kw_exprs == ["bytes(keyword, encoding=encoding)"] and "for keyword in db" in cds and "result[keyword_bytes] = identifier_bytes_list" in cds, cd,
+               "converter encodes the keyword exactly as search does",
+               "convert_database_keyword_to_bytes derives the stored keyword as %s; commands.search encodes the typed keyword with bytes(keyword, encoding='utf-8') and nothing "
+               "else, so any further transformation on one side only makes such keywords unsearchable" % kw_exprs)
     ed = repo.func(F.CLI_CMD, "encrypt_database")
     r6.require("db = convert_database_keyword_to_bytes(db)" in unparse(ed.node) and "json.load(f)" in unparse(ed.node), ed, "database converted with the default encoding", "commands.encrypt_database no longer converts the JSON database with the default encoding")
     eh = repo.func(F.CLI_CMD, "__search_echo_handler")
